@@ -66,6 +66,37 @@ theorem unescape_escape_stringField (s : Bytes) : unescapeStringField (escapeStr
         have : ¬ (x = bs ∧ (y = bs ∨ y = quote)) := fun h => hxb h.1
         simp only [this, if_false, ih]
 
+theorem escapeBytes_head_not_code (s : Bytes) : ∀ y rest, escapeBytes s = y :: rest → isCode y = false := by
+  intro y rest h
+  cases s with
+  | nil => simp [escapeBytes] at h
+  | cons x xs =>
+    simp only [escapeBytes] at h
+    split at h
+    · simp only [List.cons.injEq] at h
+      rw [← h.1]; decide
+    · rename_i hx
+      simp only [List.cons.injEq] at h
+      rw [← h.1]; simpa using hx
+
+/-- field keys: what the field iterator reads back (`AppendUnescaped`) is what was written
+(`escape.String`), for every byte string -/
+theorem appendUnescaped_escapeBytes (s : Bytes) : appendUnescaped (escapeBytes s) = s := by
+  induction s with
+  | nil => rfl
+  | cons x xs ih =>
+    simp only [escapeBytes]
+    split
+    · rename_i hx
+      simp only [appendUnescaped, hx, and_self, if_true, ih]
+    · rename_i hx
+      cases he : escapeBytes xs with
+      | nil => rw [he] at ih; simp only [appendUnescaped]; rw [← ih]; simp [appendUnescaped]
+      | cons y rest =>
+        have hy := escapeBytes_head_not_code xs y rest he
+        rw [he] at ih
+        simp only [appendUnescaped, hy, Bool.false_eq_true, and_false, if_false, ih]
+
 /-- the escape codes are not the backslash (so the single-code inverse applies to each) -/
 theorem codes_not_backslash : ∀ c ∈ tagCodes, c ≠ bs := by decide
 
